@@ -52,7 +52,7 @@ class ParserRoles:
             raise AnalysisError(rule, "Lexer.scan not found")
         cm = self.Command.methods
         for n in ("check_next_arg", "iscomplete", "tosieve", "addchild", "complete_cb", "reassign_arguments",
-                  "get_expected_first", "get_type", "has_arguments"):
+                  "get_type", "has_arguments"):
             if n not in cm:
                 raise AnalysisError(rule, "Command.%s not found" % n)
         self.check_next_arg = cm["check_next_arg"]
